@@ -431,3 +431,16 @@ Example C15_engine_history_satisfiable :
   passes_ok crc32_update [HRefresh true true true RExamples.all Ahead.oc_new; HRebuild] RExamples.st1 /\
   rebuilding crc32_update RExamples.st1 (HRefresh true true true RExamples.all Ahead.oc_new).
 Proof. exact engine_history_example. Qed.
+
+(** ** URLs *)
+
+(** The lists of both arrays keep pairwise different URLs over every history
+    of refreshes, set_url calls (a URL that some list has is refused, a failed
+    call restores the old one) and rebuilds, so the lookup by URL of set_url
+    finds the one list that has it. *)
+Theorem C15_urls_stay_unique : forall crc hs st, NoDup (urls st) -> NoDup (urls (run_hist crc hs st)).
+Proof. exact history_urls_unique. Qed.
+Print Assumptions C15_urls_stay_unique.
+
+Example C15_urls_unique_satisfiable : NoDup (urls RExamples.st1) /\ urls Ahead.st_later = [1; 11].
+Proof. exact urls_unique_example. Qed.
